@@ -26,7 +26,9 @@ def scalar_values(tier='quick'):
     for n, d in (('a', None), ('a.b-c:d~e_f', None), ('x', 'dis'), ('x', ''), ('x', 'a "q" b'), ('x', 'l1\nl2'), ('x', 'café \U0001F600')):
         out.append(('ref', Ref(n, d) if d is not None else Ref(n)))
     out += [('date', datetime.date(2020, 2, 29)), ('date', datetime.date(1000, 1, 1)), ('date', datetime.date(9999, 12, 31)),
-            ('time', datetime.time(0, 0, 0)), ('time', datetime.time(23, 59, 59, 999999)), ('time', datetime.time(1, 2, 3, 500000))]
+            ('time', datetime.time(0, 0, 0)), ('time', datetime.time(23, 59, 59, 999999)), ('time', datetime.time(1, 2, 3, 500000)),
+            # microsecond values that do not survive binary floating point (0.000029 * 1e6 < 29)
+            ('time', datetime.time(12, 34, 56, 29)), ('time', datetime.time(0, 0, 0, 1)), ('time', datetime.time(7, 8, 9, 57)), ('time', datetime.time(1, 1, 1, 123457))]
     for zn, args in (('UTC', (2020, 1, 2, 3, 4, 5)), ('Europe/Paris', (2020, 7, 1, 12, 0, 0, 250000)), ('America/New_York', (2021, 11, 7, 1, 30, 0)),
                      ('Australia/Adelaide', (2020, 1, 15, 12, 0, 0)), ('Asia/Kolkata', (1999, 12, 31, 23, 59, 59))):
         out.append(('datetime', pytz.timezone(zn).localize(datetime.datetime(*args))))
